@@ -9,7 +9,7 @@ CLAIMS = {
           "failing-unit set, thread count 1..4 and worker completion order within the bound: a finished run wrote exactly "
           "the valid peptides of all non-skipped transcripts. Real runs (thread counts, record partitions into files, file "
           "orders, .idx, index directory, hash seeds) are recorded by guarded hooks and every event must be the spec action "
-          "with the logged values (CallVariantRunTrace.tla), with the invariants evaluated at each step."),
+          "with the logged values (CallVariantRunTrace.tla), with the invariants evaluated at each step. Runs with an injected timeout on one transcript (retry ladder 7,1 / 2,0) under --threads 1 and 2 must give the same peptide set (MonotoneTrace kind same)."),
     note=("Per-unit peptide sets of an input are taken from a threads=1 reference run of the same tree; the schedule space is "
           "exhaustive in the model and sampled in real runs; Biopython compat shim (harness/compat) is trusted."),
     technique="TLA+ state machine + TLC exhaustive check; trace validation of hooked real runs", ref='6 C06'),
@@ -29,19 +29,18 @@ CLAIMS['C10'] = dict(
           "representatives (and over all 22 residues at length 3/4) a TLC state, checks window locality, partition "
           "independence, tiling and miscleavage monotonicity there, and requires the implementation's sites and pattern "
           "ranges for that string (recorded from iter_enzymatic_cleave_sites / _with_range) to equal the spec's. PoolTrace "
-          "requires the pools built by generateIndex, updateIndex and on the fly to equal CanonicalPool for random proteomes "
-          "x cleavage settings."),
+          "requires the pools built by generateIndex, updateIndex and on the fly to equal CanonicalPool for random proteomes (with exception motifs) x cleavage settings, incl. a second parameter set that differs from the first in exactly one field (e.g. only the exception)."),
     note=("Rule predicates are my transcription of the ExPASy table; proteome sequences contain no internal X; mass "
           "thresholds are offset by 5e-5 Da so ties cannot occur; exhaustive within the stated string lengths only."),
     technique="TLA+ definitional spec evaluated exhaustively by TLC over bounded strings; implementation outputs validated against it", ref='6 C10')
 CLAIMS['C12'] = dict(
     text=("spec/IndexDir.tla models the index directory (metadata.json versions and pool registry, pool files, reference "
           "files, annotation symlink) with one action per generateIndex/updateIndex/load invocation, including the crash "
-          "paths of the real code. TLC explores the complete reachable state graph over 3 parameter sets and checks LoadRight, "
+          "paths of the real code. TLC explores the complete reachable state graph over 3 abstract parameter sets (bound, per replayed history, to a base set and two members of a family that differ from it in exactly one field: exception, miscleavage, min/max length, min mass, rule) and checks LoadRight, "
           "LoadGuarded, Faithful, Registry, UpdateKeeps, BadVersionRejected. TLC-generated histories (with the result and "
           "directory state the spec predicts after every step) are replayed into the real commands and compared step by step: "
           "exit status class, registered pools, content of each pool file, loaded pool/genome/proteome/annotation/coding data."),
-    note=("Three fixed parameter sets on one small synthetic reference; histories of length <= 7 sampled by TLC simulation "
+    note=("A family of 7 parameter sets with pairwise different pools on one synthetic reference with trypsin-exception motifs; histories of length <= 7 sampled by TLC simulation "
           "(quick) plus all histories of length 4 over 2 parameter sets (thorough); version tampering edits metadata.json."),
     technique="TLA+ state machine + TLC; spec-generated histories replayed into the implementation", ref='6 C12')
 CLAIMS['C11'] = dict(
@@ -148,7 +147,7 @@ CLAIMS['C15'] = dict(
     technique="TLA+ definitional spec; TLC validation of CLI outputs and of callVariant peptides", ref='6 C15')
 CLAIMS['C16'] = dict(
     text=("Rmats.tla defines an rMATS event as two exon chains (inclusion / skipping form, both genomic geometries of A5SS/A3SS), "
-          "'transcript carries a form' (junction coordinates agree, inner exons coincide), the re-spliced exon list of the other "
+          "'transcript carries a form' (junction coordinates agree, inner exons coincide; for the single-junction events A5SS/A3SS also up to interjacent exons that overlap no exon of the event), the re-spliced exon list of the other "
           "form and what an Insertion / Deletion / Substitution record denotes on a transcript in gene coordinates (as callVariant "
           "applies it, REF base included). The real parseRMATS command line is run once per generated event (random genes on both "
           "strands, isoform sets carrying the inclusion form, the skipping form, both, forms with different outer exon ends, partial "
